@@ -94,6 +94,12 @@ def check_roundtrip(case, ctx):
                         "parse(serialize(s)) != s: lens %s got %r" % (lens[:8], [
                             c if isinstance(c, int) else len(c) for c in back.cmds][:12]))
     expect_eq("C19/parse/position", "stream position after parse", stream.tell(), len(ser))
+    # the command list is edited in place after the first serialisation
+    sc.cmds.append(0xAC)
+    sc.cmds.insert(0, b"\x07")
+    raw2 = must_return("C19/serialize/refused-valid", "raw_serialize after editing cmds in place", sc.raw_serialize)
+    expect_eq("C19/serialize/stale-after-edit", "raw_serialize after cmds was edited in place", raw2,
+              R.raw_serialize([b"\x07"] + cmds + [0xAC]))
     # trailing bytes must not be swallowed or change the result
     stream = BytesIO(ser + b"\x51\x00")
     back2 = must_return("C19/parse/refused-valid", "parse with trailing bytes", Script.parse, stream)
@@ -151,6 +157,13 @@ def _general_oracle(buf, ctx, sig_prefix):
                         % (buf[:40].hex(), _summ(val.cmds), _summ(want)))
     if stream.tell() != consumed:
         raise Violation(sig_prefix + "/position", "consumed %d bytes, declared %d" % (stream.tell(), consumed))
+    # whatever push forms the input used, the parsed script serialises with the standard minimal ones
+    if all(isinstance(c, int) and c in OPCODES or (not isinstance(c, int) and 1 <= len(c) <= 520) for c in want):
+        st2, raw = call(val.raw_serialize)
+        if st2 == "exc" or raw != R.raw_serialize(want):
+            raise Violation(sig_prefix + "/reserialise-not-minimal", "the script parsed from %s re-serialises as %r, the "
+                            "standard encoding is %s" % (buf[:40].hex(), raw.hex() if isinstance(raw, bytes) else raw,
+                                                         R.raw_serialize(want).hex()[:80]))
     return True
 
 
